@@ -84,6 +84,19 @@ def run(rep, drv):
 			# a key present in only one dict, at / inside / outside the absolute tolerance around zero
 			tgt = rng.choice([d1, d2])
 			tgt[rng.choice([20, 21, 22])] = rng.choice([1, -1]) * rng.choice([ab / 2, ab, 2 * ab, 2.0 ** -30, 0.0])
+		if k % 4 == 0:
+			# a coarse relative tolerance with a difference between rel*min and rel*max (the documented test is symmetric: relative to the LARGER value),
+			# or an absolute tolerance on large values (the tolerances are alternatives, not added up)
+			if k % 8 == 0:
+				rel, ab = 2.0 ** -4, 0.0
+				va, vb = 16.0, 17.03125
+			else:
+				rel, ab = 2.0 ** -30, 2.0 ** -8
+				va, vb = 2.0 ** 20, 2.0 ** 20 + 2.0 ** -8 + 2.0 ** -11
+			if (k // 8) % 2:
+				va, vb = vb, va
+			d1[30] = va; d2[30] = vb
+			rep.count('dict_match:tolerance-sliver')
 		case = {'d1': [[a, fr(b)] for a, b in d1.items()], 'd2': [[a, fr(b)] for a, b in d2.items()], 'req': req, 'rel': fr(rel), 'abs': fr(ab)}
 		rep.case('dict_match', case)
 		rep.count('dict_match:' + ('same-keys' if set(d1) == set(d2) else 'different-keys'))
